@@ -108,6 +108,23 @@ func discharge(o *Obligation, idx int, opt solveOpts) {
 			}
 		}
 	}
+	// stage 1: the whole relevant context without its quantified facts (dropping
+	// hypotheses is sound; many goals follow from the ground facts alone)
+	if !o.ExpectSat {
+		nq := o.queryNoQuant()
+		nf := filepath.Join(opt.tmp, fmt.Sprintf("n%05d.smt2", idx))
+		if os.WriteFile(nf, []byte(nq), 0o644) == nil {
+			r := raceSolvers(nf, []solverSpec{solvers[0], solvers[1]}, 2, opt.seed)
+			if !opt.keep {
+				os.Remove(nf)
+			}
+			o.Time += r.time
+			if r.status == "unsat" {
+				o.Status, o.Solver = "proved", r.solver+"(ground)"
+				return
+			}
+		}
+	}
 	q := o.query(false)
 	if len(q) > 4<<20 {
 		o.Status, o.Output = "failed", fmt.Sprintf("cap: query of %d bytes exceeds 4 MB", len(q))
@@ -193,10 +210,30 @@ func discharge(o *Obligation, idx int, opt solveOpts) {
 			}
 		}
 	case "sat":
+		// the heuristic prunings drop hypotheses: a countermodel of the pruned
+		// query proves nothing. Ask again with the whole context.
+		full := false
+		if uq := o.queryModeB(false, false, false); uq != q {
+			full = true
+			_ = os.WriteFile(file, []byte(uq), 0o644)
+			r := raceSolvers(file, solvers, opt.timeoutS, opt.seed+3)
+			o.Time += r.time
+			if r.status == "unsat" {
+				o.Status, o.Solver = "proved", r.solver+"(full)"
+				return
+			}
+			if r.status != "sat" {
+				o.Status, o.Solver = "unknown", r.solver
+				o.Output = r.status + " (pruned query sat): " + firstLines(r.output, 3)
+				return
+			}
+			res = r
+			o.Solver = r.solver
+		}
 		o.Status = "failed"
 		o.Output = "sat"
 		// fetch a model
-		mq := o.query(true)
+		mq := o.queryModeB(true, false, !full)
 		mf := file + ".model.smt2"
 		if os.WriteFile(mf, []byte(mq), 0o644) == nil {
 			for _, sp := range solvers {
@@ -216,6 +253,10 @@ func discharge(o *Obligation, idx int, opt solveOpts) {
 			o2.retried = true
 			o2.timeoutS = opt.timeoutS * 2
 			o2.seed = opt.seed + 17
+			// the retry sees the context without control-flow pruning
+			if uq := o.queryModeB(false, false, false); uq != q {
+				_ = os.WriteFile(file, []byte(uq), 0o644)
+			}
 			r := raceSolvers(file, solvers, o2.timeoutS, o2.seed)
 			o.Time += r.time
 			if r.status == "unsat" {
